@@ -546,7 +546,42 @@ impl<V: VringT<GM> + Clone + Send + Sync + 'static> Run<V> {
     }
 }
 
+/// a history whose last step is "teardown" ends with the count of descriptors that are still open after the
+/// frontend, the connection, the daemon and everything the harness created are gone, relative to the count
+/// before the daemon was built (C09: descriptors the daemon received are closed by it at the latest here)
 fn run_with<V: VringT<GM> + Clone + Send + Sync + 'static>(cfg: &[Val], steps: &[Val]) -> Val {
+    let wants = steps.last().and_then(|s| s.as_l()).and_then(|p| p.first()).and_then(|k| k.as_s()) == Some("teardown");
+    let before = crate::peer::count_open_fds();
+    let v = run_inner::<V>(cfg, if wants { &steps[..steps.len() - 1] } else { steps });
+    if !wants {
+        return v;
+    }
+    // worker threads are joined by the daemon's drop; give the kernel a moment for anything closed asynchronously
+    let mut after = crate::peer::count_open_fds();
+    for _ in 0..20 {
+        if after <= before {
+            break;
+        }
+        std::thread::sleep(Duration::from_millis(5));
+        after = crate::peer::count_open_fds();
+    }
+    if after > before && std::env::var("VV_FD_DEBUG").is_ok() {
+        if let Ok(rd) = std::fs::read_dir("/proc/self/fd") {
+            for e in rd.flatten() {
+                eprintln!("open after teardown: {:?} -> {:?}", e.file_name(), std::fs::read_link(e.path()).ok());
+            }
+        }
+    }
+    match v {
+        Val::L(mut out) => {
+            out.push(Val::L(vec![Val::L(vec![Val::s("ok"), Val::N(after.saturating_sub(before) as u128)]), Val::L(vec![])]));
+            Val::L(out)
+        }
+        other => other,
+    }
+}
+
+fn run_inner<V: VringT<GM> + Clone + Send + Sync + 'static>(cfg: &[Val], steps: &[Val]) -> Val {
     let nq = cfg[0].as_u64().unwrap_or(1) as usize;
     let maxq = cfg[1].as_u64().unwrap_or(256) as usize;
     let features = cfg[2].as_u64().unwrap_or(0);
@@ -654,10 +689,14 @@ fn run_with<V: VringT<GM> + Clone + Send + Sync + 'static>(cfg: &[Val], steps: &
         out.push(Val::L(vec![res, Val::L(ev)]));
     }
     // teardown
-    let Run { mut daemon, fe, .. } = run;
+    let Run { mut daemon, fe, mut fdt, .. } = run;
     drop(fe);
     let _ = daemon.wait();
     drop(daemon);
+    fdt.close_ours();
+    if std::env::var("VV_FD_DEBUG").is_ok() {
+        eprintln!("strong counts after daemon drop: sh={} backend={}", Arc::strong_count(&sh), Arc::strong_count(&backend));
+    }
     let _ = std::fs::remove_file(&path);
     let _ = std::fs::remove_dir(&dir);
     Val::L(out)
